@@ -277,7 +277,7 @@ class DirectCollocation(SamplingMethod):
                 # Row vector if vector
                 if value.is_column() and var.is_scalar(): value = value.T
                 if is_states:
-                    if var.numel()*(self.N)==value.numel() or var.numel()*(self.N+1)==value.numel():
+                    if value.shape!=var.shape and (var.numel()*(self.N)==value.numel() or var.numel()*(self.N+1)==value.numel()):
                         # Column k holds for all integrator points (and roots) of control interval k;
                         # the last column holds for the final node
                         value_integrator = horzcat(ca.kron(value[:,:self.N], DM.ones(1,self.M)), value[:,-1])
@@ -309,7 +309,7 @@ class DirectCollocation(SamplingMethod):
                 for k in [-1]+list(range(self.N)):
                     target = self.eval_at_control(stage, var, k)
                     value_k = value
-                    if target.numel()*(self.N)==value.numel() or target.numel()*(self.N+1)==value.numel():
+                    if value.shape!=target.shape and (target.numel()*(self.N)==value.numel() or target.numel()*(self.N+1)==value.numel()):
                         value_k = value[:,k]
                     try:
                         #print(target,value_k)
